@@ -209,9 +209,10 @@ def read_ndjson(path):
 
 # ------------------------------------------------------------------------------------------ TLC
 
-def _tlc_env(extra=None):
+def _tlc_env(extra=None, heap="3g"):
     env = dict(os.environ)
-    env.pop("JAVA_TOOL_OPTIONS", None)
+    # bound every JVM: many TLC processes run side by side (default heap would be 25 % of RAM each)
+    env["JAVA_TOOL_OPTIONS"] = "-Xmx" + heap
     if extra:
         env.update(extra)
     return env
